@@ -844,7 +844,7 @@ Proof.
     + destruct (Z.eqb_spec x i) as [->|N].
       * rewrite IH. cbn [shift_ego ego_sel ego_rest].
         replace (i - i)%Z with 0%Z by lia. replace (i - (i + 1))%Z with (-1)%Z by lia.
-        cbn. rewrite <- !app_assoc. reflexivity.
+        cbn [Z.leb Z.compare Z.to_nat nth_error firstn skipn app]. rewrite <- !app_assoc. reflexivity.
       * rewrite IH. cbn [shift_ego ego_sel ego_rest].
         destruct (0 <=? x - i)%Z eqn:E1.
         -- assert (E2 : (0 <=? x - (i + 1))%Z = true) by lia. rewrite E2.
@@ -1459,12 +1459,12 @@ Lemma c20_adj_calls m reg v a ids sched s tr :
   (d_complete s -> forall k, count_start k tr = calls_expected a reg k /\ count_end k tr = calls_expected a reg k).
 Proof.
   intros H HR. destruct (ledger_ids_spec a ids H) as [ND _].
-  destruct (adj_calls_safe m v reg ids ND sched s tr HR) as [H1 [H2 H3]]. repeat split.
+  destruct (adj_calls_safe m v reg ids ND sched s tr HR) as [H1 [H2 H3]]. split; [|split; [|split]].
   - intro k. rewrite <- (calls_expected_ids a ids reg k H). apply H1.
   - exact H2.
   - exact (legit_keys m reg v a ids tr H H3).
-  - rewrite <- (calls_expected_ids a ids reg k H). apply (adj_calls_exact m v reg ids ND sched s tr HR H0 k).
-  - rewrite <- (calls_expected_ids a ids reg k H). apply (adj_calls_exact m v reg ids ND sched s tr HR H0 k).
+  - intros C k. rewrite <- (calls_expected_ids a ids reg k H).
+    exact (adj_calls_exact m v reg ids ND sched s tr HR C k).
 Qed.
 
 Lemma c20_adj_result m reg v a ids sched s tr r :
@@ -1707,3 +1707,428 @@ Example ex_fund_fail :
   f_completeb (fst r) = true /\ f_ret (fst r) = Some (OErr (ECall 13%N)) /\
   count_start ex_ka (snd r) = 0 /\ count_start ex_kb (snd r) = 1 /\ count_start ex_kc (snd r) = 1.
 Proof. vm_compute. repeat split; reflexivity. Qed.
+
+(* ---------- liveness: the canonical schedules let every goroutine finish and the call return ---------- *)
+
+Definition dexec (m : method) (v : hid -> bool) (s : dstate) (ls : list dlabel) : dstate :=
+  fold_left (fun s l => fst (dstep m v s l)) ls s.
+
+Lemma dexec_app m v s l1 l2 : dexec m v s (l1 ++ l2) = dexec m v (dexec m v s l1) l2.
+Proof. unfold dexec. apply fold_left_app. Qed.
+
+Lemma dexec_dinv m v ts ls : forall s, dinv v ts s -> dinv v ts (dexec m v s ls).
+Proof.
+  induction ls as [|l ls IH]; intros s H; [exact H|]. cbn [dexec fold_left]. apply IH. apply dinv_step. exact H.
+Qed.
+
+Lemma run_astep_fst m v ls : forall s tr, fst (run (astep m v) (s, tr) ls) = dexec m v s ls.
+Proof.
+  induction ls as [|l ls IH]; intros s tr; [reflexivity|].
+  unfold run. cbn [fold_left fst snd dexec]. pose proof (astep_fst m v s l) as E.
+  destruct (astep m v s l) as [s' ev]. cbn [fst] in E. subst s'. apply IH.
+Qed.
+
+Definition tkeys (l : list task) : list key := map fst l.
+
+Lemma tkeys_tasks_of reg l : tkeys (tasks_of reg l) = l.
+Proof. unfold tkeys, tasks_of. rewrite map_map. cbn [fst]. apply map_id. Qed.
+
+Lemma extract_keys k l t l' : extract k l = Some (t, l') -> NoDup (tkeys l) ->
+  ~ In k (tkeys l') /\ incl (tkeys l') (tkeys l) /\ NoDup (tkeys l').
+Proof.
+  intros E ND. destruct (extract_some _ _ _ _ E) as [P F].
+  assert (P' : Permutation (tkeys l) (k :: tkeys l')).
+  { unfold tkeys. rewrite <- F. change (fst t :: map fst l') with (map fst (t :: l')). apply Permutation_map. exact P. }
+  pose proof (Permutation_NoDup P' ND) as ND'. inversion ND' as [|? ? H1 H2]; subst.
+  split; [exact H1|]. split; [|exact H2].
+  intros x Hx. eapply Permutation_in; [symmetry; exact P'|]. right. exact Hx.
+Qed.
+
+Lemma extract_none_keys k l : extract k l = None -> ~ In k (tkeys l).
+Proof.
+  intros E Hin. unfold tkeys in Hin. apply in_map_iff in Hin. destruct Hin as [t [Ht Hin]].
+  exact (extract_none k l E t Hin Ht).
+Qed.
+
+(* goroutines never come back: the keys of d_new only shrink; SGo k removes k *)
+Lemma dstep_new_shrinks m v s l : NoDup (tkeys (d_new s)) ->
+  incl (tkeys (d_new (fst (dstep m v s l)))) (tkeys (d_new s)) /\
+  NoDup (tkeys (d_new (fst (dstep m v s l)))) /\
+  (forall k, l = SGo k -> ~ In k (tkeys (d_new (fst (dstep m v s l))))).
+Proof.
+  intro ND. destruct l as [k|k|]; cbn [dstep].
+  - destruct (extract k (d_new s)) as [[t new']|] eqn:E.
+    + destruct (extract_keys _ _ _ _ E ND) as [H1 [H2 H3]].
+      destruct (snd t); cbn [fst d_new]; (split; [exact H2|split; [exact H3|]]); intros k' Hk; injection Hk as <-; exact H1.
+    + cbn [fst]. split; [apply incl_refl|split; [exact ND|]]. intros k' Hk. injection Hk as <-.
+      apply extract_none_keys. exact E.
+  - destruct (extract k (d_run s)) as [[t run']|]; cbn [fst d_new];
+      (split; [apply incl_refl|split; [exact ND|discriminate]]).
+  - destruct (dstep_recv_tasks m v s) as [E _]. cbn [dstep] in E. rewrite E.
+    split; [apply incl_refl|split; [exact ND|discriminate]].
+Qed.
+
+Lemma dexec_new_shrinks m v ls : forall s, NoDup (tkeys (d_new s)) ->
+  incl (tkeys (d_new (dexec m v s ls))) (tkeys (d_new s)) /\ NoDup (tkeys (d_new (dexec m v s ls))).
+Proof.
+  induction ls as [|l ls IH]; intros s ND; [split; [apply incl_refl|exact ND]|].
+  cbn [dexec fold_left]. destruct (dstep_new_shrinks m v s l ND) as [H1 [H2 _]].
+  destruct (IH _ H2) as [H3 H4]. split; [|exact H4]. eapply incl_tran; eassumption.
+Qed.
+
+Lemma go_all m v l : forall s, NoDup (tkeys (d_new s)) ->
+  forall k, In k l -> ~ In k (tkeys (d_new (dexec m v s (map SGo l)))).
+Proof.
+  induction l as [|k0 l IH]; intros s ND k Hk; [contradiction|].
+  cbn [map dexec fold_left]. destruct (dstep_new_shrinks m v s (SGo k0) ND) as [_ [H2 H3]].
+  destruct Hk as [<-|Hk].
+  - intro Hin. apply (H3 k0 eq_refl). apply (proj1 (dexec_new_shrinks m v (map SGo l) _ H2)). exact Hin.
+  - apply IH; assumption.
+Qed.
+
+Lemma nil_of_no_keys (l : list task) : (forall k, In k (tkeys l) -> False) -> l = [].
+Proof. destruct l as [|t l]; [reflexivity|]. intro H. exfalso. apply (H (fst t)). left. reflexivity. Qed.
+
+(* with no goroutine left to start, the running ones only finish; SFin k finishes k *)
+Lemma dstep_run_shrinks m v s l : d_new s = [] -> NoDup (tkeys (d_run s)) ->
+  d_new (fst (dstep m v s l)) = [] /\
+  incl (tkeys (d_run (fst (dstep m v s l)))) (tkeys (d_run s)) /\
+  NoDup (tkeys (d_run (fst (dstep m v s l)))) /\
+  (forall k, l = SFin k -> ~ In k (tkeys (d_run (fst (dstep m v s l))))).
+Proof.
+  intros HN ND. destruct l as [k|k|]; cbn [dstep].
+  - rewrite HN. cbn [extract fst]. split; [exact HN|]. split; [apply incl_refl|]. split; [exact ND|discriminate].
+  - destruct (extract k (d_run s)) as [[t run']|] eqn:E.
+    + destruct (extract_keys _ _ _ _ E ND) as [H1 [H2 H3]]. cbn [fst d_new d_run].
+      split; [exact HN|]. split; [exact H2|]. split; [exact H3|]. intros k' Hk. injection Hk as <-. exact H1.
+    + cbn [fst]. split; [exact HN|]. split; [apply incl_refl|]. split; [exact ND|].
+      intros k' Hk. injection Hk as <-. apply extract_none_keys. exact E.
+  - destruct (dstep_recv_tasks m v s) as [E1 [E2 _]]. cbn [dstep] in E1, E2. rewrite E1, E2.
+    split; [exact HN|]. split; [apply incl_refl|]. split; [exact ND|discriminate].
+Qed.
+
+Lemma dexec_run_shrinks m v ls : forall s, d_new s = [] -> NoDup (tkeys (d_run s)) ->
+  d_new (dexec m v s ls) = [] /\ incl (tkeys (d_run (dexec m v s ls))) (tkeys (d_run s)) /\
+  NoDup (tkeys (d_run (dexec m v s ls))).
+Proof.
+  induction ls as [|l ls IH]; intros s HN ND; [split; [exact HN|split; [apply incl_refl|exact ND]]|].
+  cbn [dexec fold_left]. destruct (dstep_run_shrinks m v s l HN ND) as [H1 [H2 [H3 _]]].
+  destruct (IH _ H1 H3) as [H4 [H5 H6]]. split; [exact H4|]. split; [|exact H6]. eapply incl_tran; eassumption.
+Qed.
+
+Definition fin3 (k : key) : list dlabel := [SFin k; SRecv; SRecv].
+
+Lemma fin_all m v order : forall s, d_new s = [] -> NoDup (tkeys (d_run s)) ->
+  forall k, In k order -> ~ In k (tkeys (d_run (dexec m v s (flat_map fin3 order)))).
+Proof.
+  induction order as [|k0 order IH]; intros s HN ND k Hk; [contradiction|].
+  cbn [flat_map]. rewrite dexec_app.
+  destruct (dstep_run_shrinks m v s (SFin k0) HN ND) as [A1 [A2 [A3 A4]]].
+  destruct (dexec_run_shrinks m v [SRecv; SRecv] _ A1 A3) as [B1 [B2 B3]].
+  assert (E : dexec m v s (fin3 k0) = dexec m v (fst (dstep m v s (SFin k0))) [SRecv; SRecv]) by reflexivity.
+  rewrite E. destruct Hk as [<-|Hk].
+  - intro Hin. apply (A4 k0 eq_refl). apply B2.
+    apply (proj1 (proj2 (dexec_run_shrinks m v (flat_map fin3 order) _ B1 B3))). exact Hin.
+  - apply IH; assumption.
+Qed.
+
+(* the collecting loop: while it has not returned, d_left counts exactly the results still to come *)
+Lemma dinv_left v ts s : dinv v ts s -> d_ret s = None ->
+  d_left s = length (d_new s) + length (d_run s) + length (d_queue s).
+Proof.
+  intros I ER. pose proof (dinv_lengths v ts s I) as HL. destruct I as [_ _ [c [HC HR]]].
+  rewrite ER in HR. destruct HR as [_ HLc].
+  assert (H : length c + length (d_queue s) = length (d_done s)) by (rewrite <- app_length, HC, map_length; reflexivity).
+  lia.
+Qed.
+
+Lemma dinv_queue_le v ts s : dinv v ts s -> length (d_queue s) <= length ts.
+Proof.
+  intro I. pose proof (dinv_lengths v ts s I) as HL. destruct I as [_ _ [c [HC _]]].
+  assert (H : length c + length (d_queue s) = length (d_done s)) by (rewrite <- app_length, HC, map_length; reflexivity).
+  lia.
+Qed.
+
+Definition idle (s : dstate) : Prop := d_ret s <> None \/ (d_queue s = [] /\ d_left s > 0).
+
+Lemma idle_recv m v s : idle s -> idle (fst (dstep m v s SRecv)).
+Proof.
+  intros [H|[HQ HL]].
+  - left. destruct (d_ret s) as [r|] eqn:E; [|congruence]. rewrite (dstep_ret_stable m v s SRecv r E). discriminate.
+  - cbn [dstep]. destruct (d_ret s) eqn:ER; [left; cbn [fst]; congruence|].
+    destruct (d_left s) as [|n] eqn:EL; [lia|]. rewrite HQ. cbn [fst]. right. split; [exact HQ|lia].
+Qed.
+
+Lemma idle_recvs m v j : forall s, idle s -> idle (dexec m v s (repeat SRecv j)).
+Proof.
+  induction j as [|j IH]; intros s H; [exact H|]. cbn [repeat dexec fold_left]. apply IH. apply idle_recv. exact H.
+Qed.
+
+Lemma drain m v ts j : forall s, dinv v ts s -> length (d_queue s) < j -> idle (dexec m v s (repeat SRecv j)).
+Proof.
+  induction j as [|j IH]; intros s I HQ; [lia|]. cbn [repeat dexec fold_left].
+  pose proof (dinv_step m v ts s SRecv I) as I'. revert I'. cbn [dstep].
+  destruct (d_ret s) as [r|] eqn:ER.
+  - intros _. cbn [fst]. apply idle_recvs. left. congruence.
+  - destruct (d_left s) as [|n] eqn:EL.
+    + intros _. cbn [fst]. apply idle_recvs. left. cbn [d_ret]. discriminate.
+    + destruct (d_queue s) as [|[e|] q] eqn:EQ.
+      * intros _. cbn [fst]. apply idle_recvs. right. split; [exact EQ|lia].
+      * intros _. cbn [fst]. apply idle_recvs. left. cbn [d_ret]. discriminate.
+      * intro I'. cbn [fst] in *. apply IH; [exact I'|]. cbn [d_queue length] in *. lia.
+Qed.
+
+Lemma fin_queue m v s k : length (d_queue (fst (dstep m v s (SFin k)))) <= S (length (d_queue s)).
+Proof.
+  cbn [dstep]. destruct (extract k (d_run s)) as [[t run']|]; cbn [fst d_queue]; [rewrite app_length; cbn [length]|]; lia.
+Qed.
+
+Lemma fin_ret m v s k : d_ret (fst (dstep m v s (SFin k))) = d_ret s.
+Proof. apply dstep_task_ret. discriminate. Qed.
+
+Lemma idle_fin3 m v ts s k : dinv v ts s -> idle s -> idle (dexec m v s (fin3 k)).
+Proof.
+  intros I H. change (dexec m v s (fin3 k)) with (dexec m v (fst (dstep m v s (SFin k))) (repeat SRecv 2)).
+  destruct H as [H|[HQ _]].
+  - apply idle_recvs. left. rewrite fin_ret. exact H.
+  - apply (drain m v ts); [apply dinv_step; exact I|]. pose proof (fin_queue m v s k). rewrite HQ in H. cbn [length] in H. lia.
+Qed.
+
+Lemma idle_fin_all m v ts order : forall s, dinv v ts s -> idle s -> idle (dexec m v s (flat_map fin3 order)).
+Proof.
+  induction order as [|k order IH]; intros s I H; [exact H|]. cbn [flat_map]. rewrite dexec_app.
+  apply IH; [apply dexec_dinv; exact I|apply (idle_fin3 m v ts); assumption].
+Qed.
+
+Lemma nodup_app_l {A} (l1 l2 : list A) : NoDup (l1 ++ l2) -> NoDup l1.
+Proof.
+  induction l1 as [|x l1 IH]; intro H; [constructor|]. cbn [app] in H. inversion H as [|? ? Hx Hr]; subst.
+  constructor; [|apply IH; exact Hr]. intro Hin. apply Hx. apply in_or_app. left. exact Hin.
+Qed.
+
+Lemma nodup_app_r {A} (l1 l2 : list A) : NoDup (l1 ++ l2) -> NoDup l2.
+Proof.
+  induction l1 as [|x l1 IH]; intro H; [exact H|]. cbn [app] in H. inversion H; subst. apply IH. assumption.
+Qed.
+
+Lemma dinv_run_nodup v reg l s : NoDup l -> dinv v (tasks_of reg l) s ->
+  NoDup (tkeys (d_new s)) /\ NoDup (tkeys (d_run s)).
+Proof.
+  intros ND [HP _ _]. assert (P : Permutation (tkeys (d_new s) ++ tkeys (d_run s) ++ tkeys (d_done s)) l).
+  { rewrite <- (tkeys_tasks_of reg l). unfold tkeys. rewrite <- !map_app. apply Permutation_map. exact HP. }
+  pose proof (Permutation_NoDup (Permutation_sym P) ND) as N. split.
+  - apply nodup_app_l in N. exact N.
+  - apply nodup_app_r in N. apply nodup_app_l in N. exact N.
+Qed.
+
+(* the goroutines of the ledgers l (a sub-list of ids), driven by the canonical schedule of ids *)
+Lemma canon_complete m v reg l ids order :
+  NoDup l -> incl l ids -> (forall k, In k l -> registered reg k = true -> In k order) ->
+  d_complete (dexec m v (d_init reg l) (canon_sched ids order)).
+Proof.
+  intros ND HI HO. unfold canon_sched. rewrite !dexec_app. fold fin3.
+  set (ts := tasks_of reg l). set (s0 := d_init reg l).
+  assert (I0 : dinv v ts s0) by apply dinv_init.
+  set (sA := dexec m v s0 (map SGo ids)).
+  assert (IA : dinv v ts sA) by (apply dexec_dinv; exact I0).
+  assert (N0 : NoDup (tkeys (d_new s0))) by (unfold s0, d_init; cbn [d_new]; fold (tasks_of reg l); rewrite tkeys_tasks_of; exact ND).
+  assert (NA : d_new sA = []).
+  { apply nil_of_no_keys. intros k Hk.
+    assert (Hl : In k l).
+    { apply (proj1 (dexec_new_shrinks m v (map SGo ids) s0 N0)) in Hk.
+      unfold s0, d_init in Hk. cbn [d_new] in Hk. fold (tasks_of reg l) in Hk. rewrite tkeys_tasks_of in Hk. exact Hk. }
+    exact (go_all m v ids s0 N0 k (HI k Hl) Hk). }
+  set (sB := dexec m v sA (repeat SRecv (S (length ids)))).
+  assert (IB : dinv v ts sB) by (apply dexec_dinv; exact IA).
+  assert (LB : idle sB).
+  { apply (drain m v ts); [exact IA|]. pose proof (dinv_queue_le v ts sA IA) as H. unfold ts in H.
+    rewrite tasks_of_length in H. pose proof (NoDup_incl_length ND HI). lia. }
+  destruct (dinv_run_nodup v reg l sA ND IA) as [_ RA].
+  destruct (dexec_run_shrinks m v (repeat SRecv (S (length ids))) sA NA RA) as [NB [_ RB]]. fold sB in NB, RB.
+  set (sC := dexec m v sB (flat_map fin3 order)).
+  assert (IC : dinv v ts sC) by (apply dexec_dinv; exact IB).
+  assert (LC : idle sC) by (apply (idle_fin_all m v ts); assumption).
+  destruct (dexec_run_shrinks m v (flat_map fin3 order) sB NB RB) as [NC _]. fold sC in NC.
+  assert (RC : d_run sC = []).
+  { apply nil_of_no_keys. intros k Hk. unfold tkeys in Hk. apply in_map_iff in Hk. destruct Hk as [t [Hf Ht]].
+    assert (Hts : In t ts).
+    { eapply dinv_in; [exact IC|]. apply in_or_app. right. apply in_or_app. left. exact Ht. }
+    apply tasks_of_In in Hts. destruct Hts as [Hl Hs].
+    assert (Hreg : registered reg (fst t) = true).
+    { destruct IC as [_ HR _]. rewrite Forall_forall in HR. specialize (HR t Ht). unfold registered.
+      rewrite <- Hs. destruct (snd t); [reflexivity|congruence]. }
+    apply (fin_all m v order sB NB RB (fst t) (HO _ Hl Hreg)).
+    unfold tkeys. apply in_map. exact Ht. }
+  split; [exact NC|]. split; [exact RC|].
+  destruct LC as [H|[HQ HL]]; [exact H|]. intro ER.
+  pose proof (dinv_left v ts sC IC ER) as H. rewrite NC, RC, HQ in H. cbn [length] in H. lia.
+Qed.
+
+Lemma adj_canon_complete m reg v ids order : NoDup ids ->
+  (forall k, In k ids -> registered reg k = true -> In k order) ->
+  d_complete (fst (adj_run m reg v ids (canon_sched ids order))).
+Proof.
+  intros ND HO. unfold adj_run. rewrite run_astep_fst. apply canon_complete; [exact ND|apply incl_refl|exact HO].
+Qed.
+
+Section FunderLive.
+  Variable v : hid -> bool.
+  Variable reg : registry.
+  Variables e ne : list key.
+  Hypothesis nd : NoDup (e ++ ne).
+
+  Definition fexec (s : fstate) (ls : list flabel) : fstate :=
+    fold_left (fun s l => fst (fstep v reg e s l)) ls s.
+
+  Lemma fexec_app s l1 l2 : fexec s (l1 ++ l2) = fexec (fexec s l1) l2.
+  Proof. unfold fexec. apply fold_left_app. Qed.
+
+  Lemma run_fstep_fst ls : forall s tr, fst (run (fstep v reg e) (s, tr) ls) = fexec s ls.
+  Proof.
+    induction ls as [|l ls IH]; intros s tr; [reflexivity|].
+    unfold run. cbn [fold_left fst snd fexec]. destruct (fstep v reg e s l) as [s' ev]. cbn [fst]. apply IH.
+  Qed.
+
+  Lemma fexec_finv ls : forall s tr, finv v reg e ne s tr -> exists tr', finv v reg e ne (fexec s ls) tr'.
+  Proof.
+    induction ls as [|l ls IH]; intros s tr H; [exists tr; exact H|]. cbn [fexec fold_left].
+    apply (IH _ (tr ++ snd (fstep v reg e s l))). apply finv_step; assumption.
+  Qed.
+
+  Lemma dstep_recv_noop m s : d_ret s <> None -> fst (dstep m v s SRecv) = s.
+  Proof. intro H. cbn [dstep]. destruct (d_ret s); [reflexivity|congruence]. Qed.
+
+  Lemma finv_p1_ret s tr : finv v reg e ne s tr -> f_ret s <> None \/ f_p2 s <> None -> d_ret (f_p1 s) <> None.
+  Proof.
+    intros [_ D2 FR _ _ _ _ _ _ _ _ _] H.
+    destruct (f_p2 s) as [p2|] eqn:EP; [destruct D2 as [_ R]; congruence|].
+    destruct H as [H|H]; [|congruence]. destruct (f_ret s) as [o|]; [|congruence].
+    destruct o as [| | |er|]; try contradiction.
+    - destruct FR as [p2 [Hp _]]. discriminate.
+    - destruct FR as [[_ R]|[p2 [Hp _]]]; [congruence|discriminate].
+  Qed.
+
+  Lemma finv_p2_ret s tr p2 : finv v reg e ne s tr -> f_ret s <> None -> f_p2 s = Some p2 -> d_ret p2 <> None.
+  Proof.
+    intros [_ _ FR _ _ _ _ _ _ _ _ _] H EP. destruct (f_ret s) as [o|]; [|congruence].
+    destruct o as [| | |er|]; try contradiction.
+    - destruct FR as [q [Hq R]]. rewrite EP in Hq. injection Hq as <-. congruence.
+    - destruct FR as [[Hn _]|[q [Hq R]]]; [congruence|]. rewrite EP in Hq. injection Hq as <-. congruence.
+  Qed.
+
+  Lemma fstep_F1_p1 s tr l : finv v reg e ne s tr ->
+    f_p1 (fst (fstep v reg e s (F1 l))) = fst (dstep MFund v (f_p1 s) l).
+  Proof.
+    intro IV. destruct (dlabel_eq_recv l) as [->|NR]; [|rewrite (fstep_F1_task v reg e s l NR); reflexivity].
+    cbn [fstep]. destruct (f_ret s) as [o|] eqn:EF.
+    - cbn [fst]. symmetry. apply dstep_recv_noop. apply (finv_p1_ret s tr IV). left. congruence.
+    - destruct (f_p2 s) as [p2|] eqn:EP.
+      + cbn [fst]. symmetry. apply dstep_recv_noop. apply (finv_p1_ret s tr IV). right. congruence.
+      + destruct (d_ret (fst (dstep MFund v (f_p1 s) SRecv))) as [[er|]|]; reflexivity.
+  Qed.
+
+  Definition p2_fresh (s : fstate) : Prop := f_p2 s = None \/ f_p2 s = Some (d_init reg e).
+
+  Lemma fstep_F1_p2 s l : p2_fresh s -> p2_fresh (fst (fstep v reg e s (F1 l))).
+  Proof.
+    intro H. destruct (dlabel_eq_recv l) as [->|NR]; [|rewrite (fstep_F1_task v reg e s l NR); exact H].
+    cbn [fstep]. destruct (f_ret s); [exact H|]. destruct (f_p2 s); [exact H|].
+    destruct (d_ret (fst (dstep MFund v (f_p1 s) SRecv))) as [[er|]|]; cbn [fst]; unfold p2_fresh; cbn [f_p2]; auto.
+  Qed.
+
+  Lemma fexec_F1 ls : forall s tr, finv v reg e ne s tr -> p2_fresh s ->
+    f_p1 (fexec s (map F1 ls)) = dexec MFund v (f_p1 s) ls /\ p2_fresh (fexec s (map F1 ls)).
+  Proof.
+    induction ls as [|l ls IH]; intros s tr IV HF; [split; [reflexivity|exact HF]|].
+    cbn [map fexec fold_left dexec].
+    rewrite <- (fstep_F1_p1 s tr l IV).
+    apply (IH _ (tr ++ snd (fstep v reg e s (F1 l)))); [apply finv_step; assumption|apply fstep_F1_p2; exact HF].
+  Qed.
+
+  Lemma fstep_F2_none s l : f_p2 s = None -> fst (fstep v reg e s (F2 l)) = s.
+  Proof.
+    intro H. destruct (dlabel_eq_recv l) as [->|NR].
+    - cbn [fstep]. rewrite H. destruct (f_ret s); reflexivity.
+    - rewrite (fstep_F2_task v reg e s l NR), H. reflexivity.
+  Qed.
+
+  Lemma fexec_F2_none ls : forall s, f_p2 s = None -> fexec s (map F2 ls) = s.
+  Proof.
+    induction ls as [|l ls IH]; intros s H; [reflexivity|]. cbn [map fexec fold_left].
+    rewrite (fstep_F2_none s l H). apply IH. exact H.
+  Qed.
+
+  Lemma fstep_F2_some s tr l p2 : finv v reg e ne s tr -> f_p2 s = Some p2 ->
+    f_p2 (fst (fstep v reg e s (F2 l))) = Some (fst (dstep MFund v p2 l)) /\
+    f_p1 (fst (fstep v reg e s (F2 l))) = f_p1 s.
+  Proof.
+    intros IV EP. destruct (dlabel_eq_recv l) as [->|NR].
+    - cbn [fstep]. rewrite EP. destruct (f_ret s) as [o|] eqn:EF.
+      + cbn [fst]. rewrite EP. split; [|reflexivity]. f_equal. symmetry. apply dstep_recv_noop.
+        apply (finv_p2_ret s tr p2 IV); [congruence|exact EP].
+      + destruct (d_ret (fst (dstep MFund v p2 SRecv))) as [[er|]|]; cbn [fst f_p1 f_p2]; split; reflexivity.
+    - rewrite (fstep_F2_task v reg e s l NR), EP. cbn [fst f_p1 f_p2]. split; reflexivity.
+  Qed.
+
+  Lemma fexec_F2_some ls : forall s tr p2, finv v reg e ne s tr -> f_p2 s = Some p2 ->
+    f_p2 (fexec s (map F2 ls)) = Some (dexec MFund v p2 ls) /\ f_p1 (fexec s (map F2 ls)) = f_p1 s.
+  Proof.
+    induction ls as [|l ls IH]; intros s tr p2 IV EP; [split; [exact EP|reflexivity]|].
+    change (fexec s (map F2 (l :: ls))) with (fexec (fst (fstep v reg e s (F2 l))) (map F2 ls)).
+    change (dexec MFund v p2 (l :: ls)) with (dexec MFund v (fst (dstep MFund v p2 l)) ls).
+    destruct (fstep_F2_some s tr l p2 IV EP) as [H1 H2].
+    destruct (IH _ (tr ++ snd (fstep v reg e s (F2 l))) _ (finv_step v reg e ne nd s tr (F2 l) IV) H1) as [H3 H4].
+    split; [exact H3|]. rewrite H4. exact H2.
+  Qed.
+
+  Lemma fund_canon_complete ids order :
+    NoDup e -> NoDup ne -> incl e ids -> incl ne ids ->
+    (forall k, In k (e ++ ne) -> registered reg k = true -> In k order) ->
+    f_complete (fst (fund_run reg v e ne (canon_fsched ids order))).
+  Proof.
+    intros NDe NDne Ie Ine HO. unfold fund_run. rewrite run_fstep_fst. unfold canon_fsched. rewrite fexec_app.
+    set (cs := canon_sched ids order).
+    pose proof (finv_init v reg e ne) as I0.
+    assert (F0 : p2_fresh (f_init reg ne)) by (left; reflexivity).
+    destruct (fexec_F1 cs _ _ I0 F0) as [P1 F1']. cbn [f_init f_p1] in P1.
+    destruct (fexec_finv (map F1 cs) _ _ I0) as [tr1 I1].
+    set (s1 := fexec (f_init reg ne) (map F1 cs)) in *.
+    assert (C1 : d_complete (f_p1 s1)).
+    { rewrite P1. apply canon_complete; [exact NDne|exact Ine|].
+      intros k Hk. apply HO. apply in_or_app. right. exact Hk. }
+    destruct F1' as [EP|EP].
+    - rewrite (fexec_F2_none cs s1 EP). destruct C1 as [CN [CR CRet]].
+      split; [|split; [exact CN|split; [exact CR|rewrite EP; exact I]]].
+      intro HR. destruct I1 as [_ _ FR _ _ _ _ _ _ _ _ _]. rewrite HR, EP in FR. congruence.
+    - destruct (fexec_F2_some cs s1 tr1 _ I1 EP) as [P2 P1'].
+      destruct (fexec_finv (map F2 cs) _ _ I1) as [tr2 I2].
+      set (s2 := fexec s1 (map F2 cs)) in *.
+      assert (C2 : d_complete (dexec MFund v (d_init reg e) cs)).
+      { apply canon_complete; [exact NDe|exact Ie|]. intros k Hk. apply HO. apply in_or_app. left. exact Hk. }
+      destruct C1 as [CN [CR _]]. destruct C2 as [CN2 [CR2 CRet2]].
+      split; [|split; [rewrite P1'; exact CN|split; [rewrite P1'; exact CR|rewrite P2; split; assumption]]].
+      intro HR. destruct I2 as [_ _ FR _ _ _ _ _ _ _ _ _]. rewrite HR, P2 in FR. congruence.
+  Qed.
+End FunderLive.
+
+Lemma c20_adj_live m reg v a ids : ledger_ids a = Ok ids ->
+  d_complete (fst (adj_run m reg v ids (canon_sched ids ids))).
+Proof.
+  intro H. destruct (ledger_ids_spec a ids H) as [ND _]. apply adj_canon_complete; [exact ND|]. intros k Hk _. exact Hk.
+Qed.
+
+Lemma nodup_incl_split ego ids : NoDup ids ->
+  NoDup (ego_sel ego ids) /\ NoDup (ego_rest ego ids) /\ incl (ego_sel ego ids) ids /\ incl (ego_rest ego ids) ids.
+Proof.
+  intro ND. pose proof (nd_split ego ids ND) as N. split; [exact (nodup_app_l _ _ N)|]. split; [exact (nodup_app_r _ _ N)|].
+  split; intros k Hk; apply (in_split ego ids); apply in_or_app; [left|right]; exact Hk.
+Qed.
+
+Lemma c20_fund_live reg ego v a ids : ledger_ids a = Ok ids ->
+  f_complete (fst (fund_run reg v (ego_sel ego ids) (ego_rest ego ids) (canon_fsched ids ids))).
+Proof.
+  intro H. destruct (ledger_ids_spec a ids H) as [ND _].
+  destruct (nodup_incl_split ego ids ND) as [N1 [N2 [I1 I2]]].
+  apply fund_canon_complete; try assumption; [apply nd_split; exact ND|].
+  intros k Hk _. apply (in_split ego ids). exact Hk.
+Qed.
